@@ -786,6 +786,7 @@ class _Unk:
 
 
 UNK = _Unk()
+ENVIRON = type('_Environ', (), {'__repr__': lambda self: '<the WSGI environ>'})()      # CtorPathEval: the environ dict handed to a helper
 
 
 class _Raised(Exception):
@@ -815,19 +816,45 @@ class CtorPathEval:
     checker's own interpreter are applied to the sample."""
 
     MAX_STEPS = 20000
+    MAX_DEPTH = 3
 
-    def __init__(self, project: Project, func: Func, cfg: CFG, attr: str, raw_key: str):
+    def __init__(self, project: Project, func: Func, cfg: CFG, attr: str, raw_key: str, parent: Optional['CtorPathEval'] = None):
         self.p, self.f, self.cfg, self.attr, self.raw_key = project, func, cfg, attr, raw_key
         params = func.params()
-        if len(params) < 2:
-            raise AnchorError('%s: signature %s' % (func.qual, params))
-        self.envp = params[1]
+        self.parent = parent            # set for the evaluation of a helper the constructor calls (see _inline)
+        self.depth = 0 if parent is None else parent.depth + 1
+        if parent is None:
+            if len(params) < 2:
+                raise AnchorError('%s: signature %s' % (func.qual, params))
+            self.envp = params[1]
+        else:
+            self.envp = None
         self.steps = 0
-        self.sample = None
+        self.sample = None if parent is None else parent.sample
         self.outcomes: List[tuple] = []
         self.raw_read = False
 
     # ---- expressions
+    def _is_environ(self, name: ast.Name, env) -> bool:
+        """`name` denotes the WSGI environ: the constructor's own parameter (never rebound), or a helper's parameter that was handed it."""
+        if name.id in env:
+            return env[name.id] is ENVIRON
+        return self.envp is not None and name.id == self.envp
+
+    def _locals(self) -> Set[str]:
+        c = self.__dict__.get('_local_names')
+        if c is None:
+            c = set(self.f.params())
+            for x in walk_self(self.f.node):
+                if isinstance(x, ast.Name) and isinstance(x.ctx, (ast.Store, ast.Del)):
+                    c.add(x.id)
+                elif isinstance(x, ast.ExceptHandler) and x.name:
+                    c.add(x.name)
+                elif isinstance(x, (ast.Import, ast.ImportFrom)):
+                    c |= {(a.asname or a.name).split('.')[0] for a in x.names}
+            self.__dict__['_local_names'] = c
+        return c
+
     def truth(self, e, env):
         if isinstance(e, ast.BoolOp):
             vals = [self.truth(v, env) for v in e.values]
@@ -838,25 +865,31 @@ class CtorPathEval:
             v = self.truth(e.operand, env)
             return None if v is None else (not v)
         v = self.ev(e, env)
-        return None if v is UNK else bool(v)
+        return None if (v is UNK or v is ENVIRON) else bool(v)
 
     def ev(self, e, env):
         if isinstance(e, ast.Constant):
             return e.value if isinstance(e.value, _CONCRETE) else UNK
         if isinstance(e, ast.Name):
-            return env.get(e.id, UNK)
+            if self._is_environ(e, env):
+                return ENVIRON
+            v = env.get(e.id, UNK)
+            if v is UNK and e.id not in env and isinstance(e.ctx, ast.Load) and e.id not in self._locals():
+                v = self.p.fold(self.f.module, e, self.f.cls, self.f)       # a module-level name bound to a literal is its value
+                return v if (v is not UNKNOWN and isinstance(v, _CONCRETE)) else UNK
+            return v
         if isinstance(e, ast.Tuple):
             vals = [self.ev(x, env) for x in e.elts]
-            return UNK if any(v is UNK for v in vals) else tuple(vals)
+            return UNK if any(v is UNK or v is ENVIRON for v in vals) else tuple(vals)
         if isinstance(e, ast.Subscript):
-            if isinstance(e.value, ast.Name) and e.value.id == self.envp and e.value.id not in env:
+            if isinstance(e.value, ast.Name) and self._is_environ(e.value, env):
                 k = self.ev(e.slice, env) if not isinstance(e.slice, ast.Slice) else UNK
                 if k == self.raw_key:
-                    self.raw_read = True
+                    self._mark_raw_read()
                     return self.sample
                 return UNK
             base = self.ev(e.value, env)
-            if base is UNK or not isinstance(base, (str, bytes, tuple)):
+            if base is UNK or base is ENVIRON or not isinstance(base, (str, bytes, tuple)):
                 return UNK
             if isinstance(e.slice, ast.Slice):
                 parts = [None if x is None else self.ev(x, env) for x in (e.slice.lower, e.slice.upper, e.slice.step)]
@@ -936,15 +969,18 @@ class CtorPathEval:
         fn = c.func
         args = [self.ev(a, env) for a in c.args]
         kw = {k.arg: self.ev(k.value, env) for k in c.keywords}
-        known = not any(v is UNK for v in args) and not any(v is UNK for v in kw.values())
+        known = not any(v is UNK or v is ENVIRON for v in args) and not any(v is UNK or v is ENVIRON for v in kw.values())
         if isinstance(fn, ast.Attribute):
-            if isinstance(fn.value, ast.Name) and fn.value.id == self.envp and fn.value.id not in env and fn.attr == 'get':
+            if isinstance(fn.value, ast.Name) and self._is_environ(fn.value, env) and fn.attr == 'get':
                 if args and args[0] == self.raw_key:
-                    self.raw_read = True
+                    self._mark_raw_read()
                     return self.sample
                 return UNK
+            g = self._helper(c)
+            if g is not None:
+                return self._inline(g, c, args, kw)
             recv = self.ev(fn.value, env)
-            if recv is UNK or not isinstance(recv, (str, bytes)) or fn.attr not in _PURE_TEXT_METHODS or not known:
+            if recv is UNK or recv is ENVIRON or not isinstance(recv, (str, bytes)) or fn.attr not in _PURE_TEXT_METHODS or not known:
                 return UNK
             try:
                 return getattr(recv, fn.attr)(*args, **kw)
@@ -956,6 +992,9 @@ class CtorPathEval:
                 raise _Raised('builtins.ValueError', c)
             except (LookupError, TypeError, AttributeError):
                 raise UnknownIdiom('%s: %s cannot be evaluated on a sample path' % (self.f.qual, short(c)))
+        g = self._helper(c)
+        if g is not None:
+            return self._inline(g, c, args, kw)
         q = self.p.resolve_expr(self.f.module, fn, self.f)
         if q in ('builtins.len', 'builtins.str', 'builtins.bytes', 'builtins.bool') and known and args and isinstance(args[0], (str, bytes)):
             try:
@@ -966,6 +1005,76 @@ class CtorPathEval:
                 raise _Raised('builtins.UnicodeEncodeError', c)
             except (LookupError, TypeError, ValueError):
                 raise UnknownIdiom('%s: %s cannot be evaluated on a sample path' % (self.f.qual, short(c)))
+        return UNK
+
+    # ---- helpers the constructor hands the path to (k2-c06-2: the trailing-slash block of both Request.__init__ moved into the
+    # module-level falcon.request_helpers._apply_trailing_slash_option(path, strip), which returns the path)
+    def _mark_raw_read(self):
+        x = self
+        while x is not None:
+            x.raw_read = True
+            x = x.parent
+
+    def _helper(self, c: ast.Call) -> Optional[Func]:
+        """The callee when it is a plain function of the analysed package that the evaluator can run in place: module-level (or a
+        method of the constructor's own class called on self), synchronous, no generator, no *args / **kwargs."""
+        fn = c.func
+        if not isinstance(fn, (ast.Name, ast.Attribute)) or self.depth >= self.MAX_DEPTH:
+            return None
+        g = self.p.callee(self.f, c)
+        if not isinstance(g, Func) or g.is_async or g.parent is not None or g.node.args.vararg or g.node.args.kwarg or g.decorators:
+            return None
+        if g.cls is not None and not (isinstance(fn, ast.Attribute) and isinstance(fn.value, ast.Name) and fn.value.id == 'self'):
+            return None
+        if any(isinstance(x, (ast.Yield, ast.YieldFrom, ast.Await, ast.Global, ast.Nonlocal)) for x in walk_self(g.node)):
+            return None
+        x = self
+        while x is not None:
+            if x.f is g:
+                return None             # recursion
+            x = x.parent
+        return g
+
+    def _inline(self, g: Func, c: ast.Call, args, kw):
+        """Value of `g(*args, **kw)` for the sample: g's CFG is run by a sub-evaluator with the parameters bound to the caller's values
+        (defaults: g's own constants).  One return value on every way through g -> that value; g raises on every way -> the
+        exception continues in the caller; anything else (ways that differ, a store into the request inside g) -> UNK."""
+        from ..cfg import cfg_of
+        a = g.node.args
+        names = [x.arg for x in a.posonlyargs + a.args]
+        env: Dict[str, object] = {}
+        if g.cls is not None and names:
+            env[names[0]] = UNK
+            names = names[1:]
+        if len(args) > len(names) or any(k not in names + [x.arg for x in a.kwonlyargs] for k in kw):
+            return UNK
+        sub = CtorPathEval(self.p, g, cfg_of(g, self.p), self.attr, self.raw_key, parent=self)
+        defaults = dict(zip(names[len(names) - len(a.defaults):], a.defaults)) if a.defaults else {}
+        defaults.update({x.arg: d for x, d in zip(a.kwonlyargs, a.kw_defaults) if d is not None})
+        for nm, v in list(zip(names, args)) + list(kw.items()):
+            env[nm] = v
+        for nm in names + [x.arg for x in a.kwonlyargs]:
+            if nm not in env:
+                if nm not in defaults:
+                    return UNK
+                env[nm] = sub.ev(defaults[nm], {})
+        sub.steps = self.steps
+        sub._go(sub.cfg.entry, env, ())
+        self.steps = sub.steps
+        outs = sub.outcomes
+        if not outs or any(k == 'stored' for k, _v, _n in outs):
+            return UNK
+        kinds = {k for k, _v, _n in outs}
+        if kinds == {'raised'}:
+            quals = {v for _k, v, _n in outs}
+            if len(quals) == 1 and None not in quals:
+                raise _Raised(quals.pop(), c)
+            return UNK
+        if kinds <= {'returned', 'nostore'}:
+            vals = [None if k == 'nostore' else v for k, v, _n in outs]
+            v0 = vals[0]
+            if v0 is not UNK and all(v is not UNK and type(v) is type(v0) and v == v0 for v in vals):
+                return v0
         return UNK
 
     # ---- control flow
@@ -1074,6 +1183,9 @@ class CtorPathEval:
                             raise UnknownIdiom('%s: self.%s is updated in place' % (self.f.qual, self.attr))
                     elif isinstance(s, ast.Expr):
                         self.ev(s.value, env)
+                    elif isinstance(s, ast.Return) and self.parent is not None:
+                        self.outcomes.append(('returned', self.ev(s.value, env) if s.value is not None else None, s))
+                        return
                     elif isinstance(s, ast.Raise):
                         e = s.exc.func if isinstance(s.exc, ast.Call) else s.exc
                         q = self.p.resolve_expr(self.f.module, e, self.f) if e is not None else None
